@@ -6,14 +6,14 @@ from .tables import is_true, is_false
 from . import c05
 
 EXPLANATION = (
-    'Static clauses: (R1) count_current_position and uncount_current_position are inverse: same map, same key term,'
-    ' +1 / -1 on the entry, one push / one pop of the reported count; (R2) the repetition key must cover what makes'
-    " two positions 'the same': placement, castling rights, en-passant target (covered by the position key per C05)"
-    ' and the side to move (nothing toggles the key when the turn changes); (R3) every function that plays a move '
-    "for good on the game's board registers the resulting position on its Ok path; (R4) the repetition draw fires "
-    'at a count of exactly 3; (R5) the occurrence table and the max-count stack are written only by count / uncount'
-    " (imports the C05.R4 rows: no 'forget old positions' shortcut, no sharing between board copies). Counts along "
-    'real games are NOT decided.'
+    'Static clauses: (R1) count_current_position and uncount_current_position are inverse: same map, same key term, +1 / -1 on the '
+    "entry, one push / one pop of the reported count; (R2) the repetition key must cover what makes two positions 'the same': "
+    'placement, castling rights, en-passant target (covered by the position key per C05) and the side to move (nothing toggles the key '
+    "when the turn changes); (R3) every function that plays a move for good on the game's board registers the resulting position on its"
+    ' Ok path; (R4) the repetition draw fires at a count of exactly 3; (R5) the occurrence table and the max-count stack are written '
+    "only by count / uncount (imports the C05.R4 rows: no 'forget old positions' shortcut, no sharing between board copies). Counts "
+    'along real games are NOT decided. R1 accepts the update as entry().and_modify().or_insert(), get_mut, or match on '
+    'Entry::{Occupied, Vacant} with get_mut / into_mut.'
 )
 ASSUMPTIONS = [
     "HashMap::entry/and_modify/or_insert/get and Vec::push/pop have their documented meaning",
